@@ -6,11 +6,9 @@ Extraction "c19_model.ml"
   Z.add Z.mul Z.opp Z.abs Z.div_eucl Z.sub Z.eqb Z.leb Z.ltb Z.of_nat Z.to_nat
   Base.FILL
   C19.c19_get C19.c19_obs C19.c19_reach C19.c19_wt C19.c19_apply C19.c19_run
-  C19.c19_copy_faithful C19.c19_copy_fixed C19.c19_deepcopy
-  C19.c19_process_connectivity C19.c19_process_connectivity_fixed
-  C19.c19_from_topology C19.c19_from_topology_fixed
-  C19.c19_read_ugrid C19.c19_read_ugrid_fixed
-  C19.c19_grid_init C19.c19_grid_init_fixed
+  C19.c19_copy C19.c19_deepcopy
+  C19.c19_process_connectivity C19.c19_process_connectivity_nocopy
+  C19.c19_from_topology C19.c19_read_ugrid C19.c19_grid_init
   C19.c19_read_table C19.c19_table_of
-  C19.c19_to_xarray_ugrid C19.c19_to_xarray_ugrid_fixed C19.c19_to_xarray_table C19.c19_export_geo
+  C19.c19_to_xarray_ugrid C19.c19_to_xarray_table C19.c19_export_geo
   C19.c19_alias_table C19.c19_modified C19.c19_ds_bufs C19.c19_buf_data C19.c19_var_buf.
